@@ -37,10 +37,21 @@ RULE = ("every table (tp,fp,fn,tn) of naturals with total <= 6 (quick) / <= 12 (
         "(zero-cell tables are the point); standalone POD/POFD on random binary arrays with NaN, weights and every dims spelling; single tables "
         "held as 0-d count arrays with float64 and with int64 counts (all tables with total <= 2 / <= 3, every single-cell table, the empty "
         "table, random ones); tables produced by the public event route (BinaryContingencyManager / ThresholdEventOperator, then transform) on "
-        "constant, equal, all-missing and random 0/1 series, fully reduced (0-d) or with one dimension kept")
+        "constant, equal, all-missing and random 0/1 series, fully reduced (0-d) or with one dimension kept; round 4: those series stored as "
+        "bool / uint8-64 / int8-64 / float16-32 (both alike, or independently) in 60% of the event-route cases, the exchanged series, the "
+        "stand-alone functions on the same series and the manager object's own scores before / after transform; stand-alone POD / POFD with "
+        "weights multiplied by a positive constant from 2^-40 ... 2^40, 1e-12 ... 1e8 (45% of the weighted cases), compactly stored series "
+        "(25%), and two-variable Datasets whose NaN positions differ (every third case)")
 ASSUMPTIONS = ["natural logarithm (SEDI) is evaluated by the host's math.log on the model's exact rational arguments",
                "binary64 rounding is not modelled: implementation floats are compared with the exact rational value at 1e-9 relative"]
 TRUSTED = ["host math.log for SEDI"]
+
+# counters every complete run must have incremented (one per predicate family / input class): core.run_check reports the missing ones
+EXPECT_COUNTS = ["exhaustive:zero_cells=", "single-cell:", "random:", "multidim:ndim=", "scalar:float64", "scalar:int64", "counts_dict_key_order=",
+                 "event-route:", "event-route:own-table", "event_route:dtype=uint", "event_route:dtype=bool", "event_route:dtype=int", "event_route:both_unsigned",
+                 "event_route:object_state_checked", "event_route:swap_checked", "event_route:standalone_checked", "standalone:ok", "standalone_oracle_checked",
+                 "standalone_vs_manager", "standalone:scaled_weights", "standalone:weight_scale_invariance_checked", "standalone:compact_storage",
+                 "standalone:dataset_checked"]
 
 ALIASES = [("fraction_correct", "accuracy"), ("bias_score", "frequency_bias"), ("hit_rate", "probability_of_detection"),
            ("true_positive_rate", "probability_of_detection"), ("probability_of_false_detection", "false_alarm_rate"),
@@ -185,7 +196,7 @@ def is_single_diagonal_cell(t):
     return fp == 0 and fn == 0 and (tp == 0) != (tn == 0)
 
 
-def check_tables(ctx, tables, impl, label, sedi_budget=None, use_model=True):
+def check_tables(ctx, tables, impl, label, sedi_budget=None, use_model=True, extra=None):
     """tables: list of (tp,fp,fn,tn) ints; impl: {method: flat list of floats aligned with tables}"""
     res = ctx.model("c09_metrics", enc_list([enc_list([enc_num(x) for x in t]) for t in tables])) if use_model else [None] * len(tables)
     for i, (t, r) in enumerate(zip(tables, res)):
@@ -204,6 +215,8 @@ def check_tables(ctx, tables, impl, label, sedi_budget=None, use_model=True):
             x = impl[m][i]
             exp = oracle(m, *t)
             case = {"table": {"tp": t[0], "fp": t[1], "fn": t[2], "tn": t[3]}, "method": m, "via": label}
+            if extra:
+                case.update(extra)     # the inputs the table was produced from, so that the case is replayable from them
             ctx.case((t, m))
             if isinstance(x, str):
                 ctx.violation("metric method raises on a table (zero cells must give the IEEE value, never an exception)", case, exp, x)
@@ -356,14 +369,33 @@ def event_route(ctx, use_model=True):
         obs = fcst.copy()
     if pat == "allnan":
         fcst = fcst * NANF
+    # binary event tables are often stored compactly: bool / unsigned 8-bit masks / narrow integers (fcst and obs independently, so
+    # mixed storage too); the classification only compares the values with 0 and 1, so the storage type must not matter
+    storage = rng.choice(["float64", "float64", "same", "same", "independent"])
+    common = rng.choice(EVENT_DTYPES)
+    for which in ("fcst", "obs"):
+        arr = fcst if which == "fcst" else obs
+        if storage != "float64" and not bool(np.isnan(arr.values).any()):
+            arr = arr.astype(common if storage == "same" else rng.choice(EVENT_DTYPES))
+            fcst, obs = (arr, obs) if which == "fcst" else (fcst, arr)
+        ctx.count("event_route:dtype=" + str(arr.dtype))
+    if fcst.dtype.kind == "u" and obs.dtype.kind == "u":
+        ctx.count("event_route:both_unsigned")
     keep = rng.choice(sorted(sizes)) if rng.random() < 0.35 else None
     via = "ThresholdEventOperator" if rng.random() < 0.3 else "BinaryContingencyManager"
-    desc = {"fn": via + "(...).transform", "fcst": gens.da_repr(fcst), "obs": gens.da_repr(obs), "preserve_dims": keep, "pattern": pat}
-    if via == "ThresholdEventOperator":
-        st, mgr = core.call_impl(lambda: ThresholdEventOperator().make_contingency_manager(fcst, obs, event_threshold=0.5))
-    else:
-        st, mgr = core.call_impl(lambda: BinaryContingencyManager(fcst, obs))
+    desc = {"fn": via + "(...).transform", "fcst": gens.da_repr(fcst), "obs": gens.da_repr(obs), "preserve_dims": keep, "pattern": pat,
+            "fcst_dtype": str(fcst.dtype), "obs_dtype": str(obs.dtype)}
+
+    def build(a, b):
+        if via == "ThresholdEventOperator":
+            return core.call_impl(lambda: ThresholdEventOperator().make_contingency_manager(a, b, event_threshold=0.5))
+        return core.call_impl(lambda: BinaryContingencyManager(a, b))
+    st, mgr = build(fcst, obs)
+    own = own_before = None
     if st == "ok":
+        own = mgr
+        with np.errstate(all="ignore"):
+            own_before = call_all(own)        # the scores of the manager object itself, before anything else is called on it
         st, mgr = core.call_impl(lambda: mgr.transform(preserve_dims=keep) if keep else mgr.transform())
     ctx.count("event_route:" + pat + (":kept" if keep else ":0-d"))
     if st != "ok":
@@ -388,11 +420,78 @@ def event_route(ctx, use_model=True):
                 return
             else:
                 impl[m] = flat(v.sortby(keep) if keep else v)
-    check_tables(ctx, tables, impl, "event-route", sedi_budget=1, use_model=use_model)
+    check_tables(ctx, tables, impl, "event-route", sedi_budget=1, use_model=use_model, extra={"produced_from": desc})
     for m in METHODS:      # make the failing input replayable from the series, not only from the table
         if any(isinstance(x, str) for x in impl[m]):
             ctx.violation(f"{m} raises on a table produced by the event route", desc, "IEEE value", impl[m][0])
             break
+    # a failing input of the event route must be replayable from the series: restate the three cheapest relations on the series themselves
+    for m in ("probability_of_detection", "accuracy", "threat_score", "negative_predictive_value"):
+        for i, t in enumerate(tables):
+            exp = oracle(m, *t)
+            if not isinstance(impl[m][i], str) and not core.close(impl[m][i], exp):
+                ctx.violation(f"{m} of the table produced from these event series differs from its documented formula on the directly counted table",
+                              dict(desc, table={"tp": t[0], "fp": t[1], "fn": t[2], "tn": t[3]}), exp, impl[m][i])
+                return
+    # object state: the manager the view was derived from still scores its own, fully reduced table -- before and after transform()
+    pooled = tuple(int(sum(t[k] for t in tables)) for k in range(4))
+    with np.errstate(all="ignore"):
+        own_after = call_all(own)
+    for m in METHODS:
+        b, a = own_before[m], own_after[m]
+        if isinstance(b, str) or isinstance(a, str):
+            ctx.violation(f"{m} raises on the manager object itself", desc, "IEEE value", b if isinstance(b, str) else a)
+            return
+        if b.ndim != 0 or a.ndim != 0 or not same_float(b, a):
+            ctx.violation(f"{m} of the manager object itself changes when transform() is called on it (before / after)", desc,
+                          {"dims": list(b.dims), "values": np.asarray(b.values, float).tolist()}, {"dims": list(a.dims), "values": np.asarray(a.values, float).tolist()})
+            return
+    check_tables(ctx, [pooled], {m: [float(own_before[m])] for m in METHODS}, "event-route:own-table", sedi_budget=0, use_model=use_model,
+                 extra={"produced_from": desc})
+    ctx.count("event_route:object_state_checked")
+    # exchanging forecast and observation series: POD <-> success ratio, accuracy / threat score / F1 / Heidke / ETS / odds ratio unchanged
+    st, sw = build(obs, fcst)
+    if st == "ok":
+        st, sw = core.call_impl(lambda: sw.transform(preserve_dims=keep) if keep else sw.transform())
+    if st != "ok":
+        ctx.violation("the event route raises when forecast and observation are exchanged", desc, "a table", sw)
+        return
+    with np.errstate(all="ignore"):
+        for a, b in SWAPS:
+            sa, x = core.call_impl(getattr(sw, a))
+            if sa != "ok":
+                continue
+            x = flat(x.sortby(keep) if keep else x)
+            for i, t in enumerate(tables):
+                y = impl[b][i]
+                if isinstance(y, str) or (a in HSS_NAMES and is_single_diagonal_cell(t)):
+                    continue
+                ok = (math.isnan(x[i]) and math.isnan(y)) or (math.isinf(x[i]) and x[i] == y) or \
+                    (math.isfinite(x[i]) and math.isfinite(y) and abs(x[i] - y) <= 1e-9 * max(1.0, abs(y)))
+                if not ok:
+                    ctx.violation(f"exchanging the forecast and observation series: {a} of the swapped manager differs from {b}",
+                                  dict(desc, table={"tp": t[0], "fp": t[1], "fn": t[2], "tn": t[3]}), y, x[i])
+                    return
+    ctx.count("event_route:swap_checked")
+    # the stand-alone POD / POFD on the same series agree with the table
+    import scores.categorical as C
+    kw = {"preserve_dims": keep} if keep else {}
+    with np.errstate(all="ignore"):
+        for name, fn in (("probability_of_detection", C.probability_of_detection), ("probability_of_false_detection", C.probability_of_false_detection)):
+            sa, v = core.call_impl(fn, fcst, obs, **kw)
+            if sa != "ok":
+                ctx.violation(f"stand-alone {name} raises on binary series", desc, "a value", v)
+                return
+            v = flat(v.sortby(keep) if keep else v)
+            if not all(isinstance(y, str) or same_float(x, y) or abs(x - y) <= 1e-12 for x, y in zip(v, impl[name])):
+                ctx.violation(f"stand-alone {name} disagrees with the contingency manager on the same binary series", desc, impl[name], v)
+                return
+    ctx.count("event_route:standalone_checked")
+
+
+EVENT_DTYPES = ["bool", "uint8", "uint8", "uint16", "uint32", "uint64", "int8", "int16", "int32", "int64", "float32", "float16"]
+# positive constant factors of the weights: powers of two (exact in binary64) from 2^-40 to 2^40, and decimal ones
+WEIGHT_SCALES = [2.0 ** k for k in (-40, -34, -30, -27, -20, -10, -1, 1, 10, 20, 30, 40)] + [1e-10, 1e-12, 1e-9, 3e-9, 1e-6, 1e8, 7.0]
 
 
 def expected_keep(all_dims, rd, pd):
@@ -417,6 +516,18 @@ def rand_binary_case(ctx):
     if rng.random() < 0.5:
         wd = gens.sub_dims(rng, sizes, p_drop=0.4)
         w = gens.rand_da(rng, sizes, dims=wd, lo=0, hi=3, nan_p=0.1 if rng.random() < 0.3 else 0.0)
+        # ratio scores do not depend on the magnitude of the weights: any positive constant factor (2^-40 ... 2^40, 1e-10, ...) is legitimate
+        if rng.random() < 0.45:
+            w = w * rng.choice(WEIGHT_SCALES)
+            ctx.count("standalone:scaled_weights")
+    # compact storage of the binary series (no NaN to hold): the functions only compare with 0 and 1
+    if not bad:
+        for which in ("fcst", "obs"):
+            arr = fcst if which == "fcst" else obs
+            if rng.random() < 0.25 and not bool(np.isnan(arr.values).any()):
+                arr = arr.astype(rng.choice(EVENT_DTYPES))
+                fcst, obs = (arr, obs) if which == "fcst" else (fcst, arr)
+                ctx.count("standalone:compact_storage")
     rd, pd = gens.rand_dimspec(rng, sorted(set(fcst.dims) | set(obs.dims)), allow_bad=True)
     return fcst, obs, w, rd, pd, (rng.random() < 0.85)
 
@@ -467,7 +578,7 @@ def standalone(ctx, i, use_model=True):
     m = ctx.model("c09_binary_pod_pofd", enc_list([enc_arr(fcst), enc_arr(obs), enc_dimspec(rd), enc_dimspec(pd), enc_opt(w, enc_arr), enc_bool(ca)])) \
         if use_model else None
     desc = {"fn": "probability_of_detection/false_detection", "fcst": gens.da_repr(fcst), "obs": gens.da_repr(obs), "reduce_dims": rd,
-            "preserve_dims": pd, "weights": gens.da_repr(w), "check_args": ca}
+            "preserve_dims": pd, "weights": gens.da_repr(w), "check_args": ca, "fcst_dtype": str(fcst.dtype), "obs_dtype": str(obs.dtype)}
     ctx.case(desc, ipod[0] == "ok")
     ctx.count("standalone:" + ("ok" if ipod[0] == "ok" else ipod[1]))
     if i < 1:
@@ -498,6 +609,42 @@ def standalone(ctx, i, use_model=True):
                                   {"dims": list(exp.dims), "values": np.asarray(exp.values).tolist()},
                                   {"dims": list(got.dims), "values": np.asarray(got.values).tolist()})
             ctx.count("standalone_oracle_checked")
+    # a positive constant factor of the weights cancels: powers of two leave the result bitwise unchanged, other factors up to rounding
+    if w is not None and ipod[0] == "ok" and ipofd[0] == "ok":
+        c = ctx.rng.choice(WEIGHT_SCALES)
+        with np.errstate(all="ignore"):
+            spod = core.call_impl(C.probability_of_detection, fcst, obs, **dict(kw, weights=w * c))
+            spofd = core.call_impl(C.probability_of_false_detection, fcst, obs, **dict(kw, weights=w * c))
+        exact = math.frexp(c)[0] == 0.5
+        for name, a, b in (("probability_of_detection", ipod, spod), ("probability_of_false_detection", ipofd, spofd)):
+            good = b[0] == "ok" and set(a[1].dims) == set(b[1].dims)
+            if good:
+                x, y = np.asarray(a[1].values, float), np.asarray(b[1].transpose(*a[1].dims).values, float)
+                good = bool(np.array_equal(x, y, equal_nan=True)) if exact else bool(np.allclose(x, y, rtol=1e-12, atol=0, equal_nan=True))
+            if not good:
+                ctx.violation(f"standalone {name} changes when all weights are multiplied by the positive constant {c!r}", desc,
+                              np.asarray(a[1].values, float).tolist(), np.asarray(b[1].values, float).tolist() if b[0] == "ok" else b[1])
+        ctx.count("standalone:weight_scale_invariance_checked")
+    # Dataset inputs with several variables whose NaN positions differ: every variable scores as it does alone
+    if i % 3 == 0 and ipod[0] == "ok" and ipofd[0] == "ok" and fcst.dtype.kind == "f" and obs.dtype.kind == "f":
+        rng = ctx.rng
+        f2 = fcst.where(xr.DataArray(np.array([rng.random() < 0.75 for _ in range(fcst.size)]).reshape(fcst.shape), dims=fcst.dims, coords=fcst.coords))
+        o2 = (1 - obs).where(xr.DataArray(np.array([rng.random() < 0.75 for _ in range(obs.size)]).reshape(obs.shape), dims=obs.dims, coords=obs.coords))
+        fds, ods = xr.Dataset({"u": fcst, "v": f2}), xr.Dataset({"u": obs, "v": o2})
+        with np.errstate(all="ignore"):
+            for name, fn, first in (("probability_of_detection", C.probability_of_detection, ipod), ("probability_of_false_detection", C.probability_of_false_detection, ipofd)):
+                sd, dres = core.call_impl(fn, fds, ods, **kw)
+                s2, second = core.call_impl(fn, f2, o2, **kw)
+                if sd != "ok" or s2 != "ok":
+                    ctx.violation(f"standalone {name} raises on a two-variable Dataset / on its second variable although the first variable alone is accepted",
+                                  dict(desc, second_variable={"fcst": gens.da_repr(f2), "obs": gens.da_repr(o2)}), "values", dres if sd != "ok" else second)
+                    continue
+                for var, alone in (("u", first[1]), ("v", second)):
+                    if var not in dres or not same_da(alone, dres[var]):
+                        ctx.violation(f"standalone {name}: variable '{var}' of a two-variable Dataset does not score as it does alone (as a DataArray)",
+                                      dict(desc, second_variable={"fcst": gens.da_repr(f2), "obs": gens.da_repr(o2)}),
+                                      np.asarray(alone.values, float).tolist(), np.asarray(dres[var].values, float).tolist() if var in dres else None)
+        ctx.count("standalone:dataset_checked")
     # agreement with the contingency manager on binary inputs (unweighted, valid dims request)
     if w is None and ipod[0] == "ok" and ca:
         from scores.categorical import BinaryContingencyManager
@@ -536,7 +683,7 @@ def body(ctx, use_model):
             break
         multi_dim(ctx, use_model)
     scalar_tables(ctx, use_model)
-    for _ in range(ctx.n(40, 400)):
+    for _ in range(ctx.n(70, 700)):
         if not ctx.time_left():
             break
         event_route(ctx, use_model)
